@@ -32,18 +32,21 @@ func init() {
 		Level: "exploration",
 		Rule: "random nests (depth 4-7) of fn/defn/let/letseq/newScope/for/def/set over the name pool {a,b,c} so that shadowing and capture collisions occur in almost every program; closures are defined with defn inside functions, created in loops, passed as arguments, returned from their creator and called later; " +
 			"inside functions a pool name that is not lexically visible is sometimes read (dynamic-scope canary, raw or behind an error-absorbing host callback). After the program every global function is called twice with different arguments (and a returned closure is applied), so captured variables are used after the creating activation returned. Oracle: reference evaluator with lexical frame chains (value, error-ness, trace). " +
-			"non-trivial = distinct program in which the reference observed >=1 closure applied after its creating activation had returned, >=1 shadowed name and >=2 activations of one function",
+			"Plus 20 scoping programs with hand-computed expectations (own locals per activation also after a tail self call of a zero-parameter function, parallel let, names defined after the closure in its block, caller's locals invisible to callees also under loops and lets, sibling closures, set/def resolution, three nesting levels with the outer function called twice). non-trivial = distinct program in which the reference observed >=1 closure applied after its creating activation had returned, >=1 shadowed name and >=2 activations of one function",
 		Assumptions: []string{
 			"reference evaluator = intended lexical semantics (calibrated, 0 disagreements on the unchanged tree)",
 			"errors compared by error-ness only",
 		},
-		NCases:  func(c *core.Ctx) int { return thorN(c, 6000, 80000) },
-		MustSee: []string{"escaped_closure_calls", "shadowed_names", "canary_reads", "battery_calls"},
+		NCases:  func(c *core.Ctx) int { return thorN(c, 6000, 80000) + len(c03Fixed) },
+		MustSee: []string{"escaped_closure_calls", "shadowed_names", "canary_reads", "battery_calls", "fixed_programs"},
 		Run:     c03Run,
 	})
 }
 
 func c03Run(c *core.Ctx, i int) *core.Result {
+	if base := thorN(c, 6000, 80000); i >= base {
+		return c03FixedRun(c, i-base)
+	}
 	g, prog := c03Gen(c, i)
 	text := lang.Plain.Program(prog)
 	res := &core.Result{Input: text, Hash: core.HashOf(text)}
